@@ -13,11 +13,14 @@ from ..util import (has_call, find_calls, assigned_value, const_str, unparse, kw
                     guards_of, call_tail, control_ancestors)
 from .. import mutate as M
 
+TECHNIQUE = 'static analysis: key-domain inclusion of namespace dictionaries, sibling skeleton agreement (key path vs value path), abstract interpretation of _pows in the cardinality domain (n <= 8, degree <= 6) against C(n+k-1,k), ABC registration table, statelessness of the encoder'
+
 EXPLANATION = ("Key-domain inclusion: a dict built by a comprehension filtered on `ns in self._ns_max_pow` is subscripted only with "
                "keys from an iteration whose domain is included in the dict's domain (either the iteration is restricted to the "
                "dict, or the raw namespaces were first completed with every namespace a term names). Alignment: the string and "
                "numeric arms of _pows and _cross are the same comprehension skeleton up to the element operator; in the sparse "
                "path keys and values come from .keys()/.values() of the same dict and are crossed over the same term list.")
+EXPLANATION += ' R4: cardinality abstract interpretation of _pows (C(n+k-1,k) entries); R5: ABC dispatch/registrations and a stateless encoder.'
 
 ENC = "coba/encodings.py"
 
